@@ -287,6 +287,495 @@ pub mod vx_ids {
         &&& forall|c: int| covers(o, c) && inr(range, c) ==> #[trigger] val_at(res, c).eq_spec(&val_at(o, c).merge_spec(&value))
     }
 
+    // ------------------------------------------------------------------------------------------
+    // early exits: empty range, tail fast path, no-overlap path
+    // ------------------------------------------------------------------------------------------
+    /// nothing changes (empty range)
+    pub proof fn lemma_ins_noop<T: Merge>(o: Seq<Ent<T>>, range: Range<u32>, value: T)
+        requires
+            canon(o),
+            range.start >= range.end,
+        ensures
+            ins_post(o, range, value, o),
+    {
+        assert forall|c: int| covers(o, c) && !inr(range, c) implies #[trigger] val_at(o, c).eq_spec(&val_at(o, c)) by {
+            let k = idx_of(o, c);
+            assert(inr(o[k].0, c));
+            o[k].1.law_eq_refl();
+        }
+    }
+
+    /// a single new entry placed into a gap at index `lo` (touching a neighbour is allowed when the values differ)
+    pub proof fn lemma_ins_single<T: Merge>(o: Seq<Ent<T>>, lo: int, range: Range<u32>, value: T, res: Seq<Ent<T>>)
+        requires
+            canon(o),
+            value.wf(),
+            range.start < range.end,
+            0 <= lo <= o.len(),
+            lo > 0 ==> o[lo - 1].0.end <= range.start,
+            lo > 0 && o[lo - 1].0.end == range.start ==> !o[lo - 1].1.eq_spec(&value),
+            lo < o.len() ==> range.end <= o[lo].0.start,
+            lo < o.len() && range.end == o[lo].0.start ==> !value.eq_spec(&o[lo].1),
+            res =~= o.insert(lo, (range, value)),
+        ensures
+            ins_post(o, range, value, res),
+    {
+        let r = seq![(range, value)];
+        assert(r[0] == (range, value));
+        assert(canon(r));
+        assert forall|c: int| #[trigger] covers(r, c) <==> inr(range, c) by {
+            if covers(r, c) {
+                let k = idx_of(r, c);
+                assert(inr(r[k].0, c));
+            }
+            if inr(range, c) {
+                assert(inr(r[0].0, c));
+            }
+        }
+        assert forall|c: int| covers(r, c) implies val_at(r, c) == value by {
+            assert(inr(r[0].0, c));
+            lemma_idx_unique(r, 0, c);
+        }
+        lemma_splice(o, lo, lo, r, range.start as int, range.end as int);
+        assert(res =~= splice(o, lo, lo, r));
+        assert forall|c: int| inr(range, c) implies !covers(o, c) by {
+            lemma_gap(o, lo, c);
+        }
+        assert forall|c: int| covers(o, c) && !inr(range, c) implies #[trigger] val_at(res, c).eq_spec(&val_at(o, c)) by {
+            let k = idx_of(o, c);
+            assert(inr(o[k].0, c));
+            o[k].1.law_eq_refl();
+        }
+        assert forall|c: int| !covers(o, c) && inr(range, c) implies #[trigger] val_at(res, c).eq_spec(&value) by {
+            assert(covers(r, c));
+            value.law_eq_refl();
+        }
+    }
+
+    /// tail fast path "same value - extend"
+    pub proof fn lemma_ins_extend<T: Merge>(o: Seq<Ent<T>>, range: Range<u32>, value: T, res: Seq<Ent<T>>)
+        requires
+            canon(o),
+            value.wf(),
+            range.start < range.end,
+            o.len() > 0,
+            o.last().0.start <= range.start <= o.last().0.end,
+            o.last().1.eq_spec(&value),
+            res =~= o.update(o.len() - 1, (o.last().0.start..umax(o.last().0.end, range.end), o.last().1)),
+        ensures
+            ins_post(o, range, value, res),
+    {
+        let n = o.len() - 1;
+        let l = o[n];
+        let ne = umax(l.0.end, range.end);
+        lemma_extend_last(o, ne, res);
+        assert forall|i: int| 0 <= i < res.len() implies (#[trigger] res[i]).0.start < res[i].0.end && res[i].1.wf() by {
+            if i < n { assert(res[i] == o[i]); }
+        }
+        assert forall|i: int, j: int| 0 <= i && j == i + 1 && j < res.len() && (#[trigger] res[i]).0.end == (#[trigger] res[j]).0.start implies !res[i].1.eq_spec(&res[j].1) by {
+            assert(res[i] == o[i]);
+            assert(res[j].1 == o[j].1 && res[j].0.start == o[j].0.start);
+        }
+        assert forall|c: int| covers(res, c) <==> covers(o, c) || inr(range, c) by {
+            if inr(l.0.start..ne, c) && !inr(range, c) { assert(inr(o[n].0, c)); }
+        }
+        assert forall|c: int| covers(o, c) && !inr(range, c) implies #[trigger] val_at(res, c).eq_spec(&val_at(o, c)) by {
+            let k = idx_of(o, c);
+            assert(inr(o[k].0, c));
+            o[k].1.law_eq_refl();
+        }
+        assert forall|c: int| !covers(o, c) && inr(range, c) implies #[trigger] val_at(res, c).eq_spec(&value) by {
+            assert(inr(l.0.start..ne, c));
+        }
+        assert forall|c: int| covers(o, c) && inr(range, c) implies #[trigger] val_at(res, c).eq_spec(&val_at(o, c).merge_spec(&value)) by {
+            let k = idx_of(o, c);
+            assert(inr(o[k].0, c));
+            if k < n { assert(o[k].0.end <= o[n].0.start); }
+            lemma_idx_unique(o, n, c);
+            assert(inr(l.0.start..ne, c));
+            l.1.law_merge_idem(&value);
+        }
+    }
+
+    // ------------------------------------------------------------------------------------------
+    // general path, part 1: the window [lo, hi) and the frontier invariant of `replacement`
+    // ------------------------------------------------------------------------------------------
+    /// entries `lo..hi` are exactly those that overlap or touch `range`
+    pub open spec fn win<T: Merge>(o: Seq<Ent<T>>, lo: int, hi: int, range: Range<u32>) -> bool {
+        &&& canon(o)
+        &&& 0 <= lo < hi <= o.len()
+        &&& range.start < range.end
+        &&& (lo > 0 ==> o[lo - 1].0.end < range.start)
+        &&& (hi < o.len() ==> range.end < o[hi].0.start)
+        &&& forall|k: int| lo <= k < hi ==> range.start <= (#[trigger] o[k]).0.end && o[k].0.start <= range.end
+    }
+
+    /// left end of the rebuilt region
+    pub open spec fn win_lo<T>(o: Seq<Ent<T>>, lo: int, range: Range<u32>) -> int {
+        umin(o[lo].0.start, range.start) as int
+    }
+
+    /// right end of the rebuilt region
+    pub open spec fn win_hi<T>(o: Seq<Ent<T>>, hi: int, range: Range<u32>) -> int {
+        umax(o[hi - 1].0.end, range.end) as int
+    }
+
+    /// the clocks the result must cover
+    pub open spec fn target<T>(o: Seq<Ent<T>>, range: Range<u32>, c: int) -> bool {
+        covers(o, c) || inr(range, c)
+    }
+
+    /// `v` is an acceptable value for clock `c` in the result
+    pub open spec fn tv_ok<T: Merge>(o: Seq<Ent<T>>, range: Range<u32>, value: T, c: int, v: T) -> bool {
+        &&& (covers(o, c) && !inr(range, c) ==> v.eq_spec(&val_at(o, c)))
+        &&& (!covers(o, c) && inr(range, c) ==> v.eq_spec(&value))
+        &&& (covers(o, c) && inr(range, c) ==> val_at(o, c).merge_spec(&value).wf() && v.eq_spec(&val_at(o, c).merge_spec(&value)))
+    }
+
+    /// frontier invariant: `r` is the canonical result restricted to `[r0, f)`
+    pub open spec fn finv<T: Merge>(o: Seq<Ent<T>>, range: Range<u32>, value: T, r0: int, r: Seq<Ent<T>>, f: int) -> bool {
+        &&& canon(r)
+        &&& r0 <= f
+        &&& (r.len() > 0 ==> r.last().0.end <= f)
+        &&& forall|c: int| #[trigger] covers(r, c) <==> r0 <= c < f && target(o, range, c)
+        &&& forall|c: int| #[trigger] covers(r, c) ==> tv_ok(o, range, value, c, val_at(r, c))
+    }
+
+    /// the contract of `push_coalesced` as a predicate on (before, after)
+    pub open spec fn pushed<T: Merge>(a: Seq<Ent<T>>, b: Seq<Ent<T>>, rg: Range<u32>, v: T) -> bool {
+        &&& canon(b)
+        &&& forall|c: int| #[trigger] covers(b, c) <==> covers(a, c) || inr(rg, c)
+        &&& forall|c: int| covers(a, c) ==> #[trigger] val_at(b, c) == val_at(a, c)
+        &&& forall|c: int| inr(rg, c) ==> #[trigger] val_at(b, c).eq_spec(&v)
+        &&& (rg.start < rg.end ==> b.len() > 0 && b.last().0.end == rg.end)
+        &&& (rg.start >= rg.end ==> b == a)
+    }
+
+    /// one push moves the frontier from `f` to `rg.end`, provided nothing of the target lies in `[f, rg.start)`,
+    /// all of `rg` is target and `v` is an acceptable value on `rg`
+    pub proof fn lemma_advance<T: Merge>(o: Seq<Ent<T>>, range: Range<u32>, value: T, r0: int, r: Seq<Ent<T>>, f: int, r2: Seq<Ent<T>>, rg: Range<u32>, v: T)
+        requires
+            canon(o),
+            value.wf(),
+            v.wf(),
+            finv(o, range, value, r0, r, f),
+            pushed(r, r2, rg, v),
+            rg.start < rg.end,
+            f <= rg.start,
+            forall|c: int| f <= c < rg.start ==> !#[trigger] target(o, range, c),
+            forall|c: int| #[trigger] inr(rg, c) ==> target(o, range, c) && tv_ok(o, range, value, c, v),
+        ensures
+            finv(o, range, value, r0, r2, rg.end as int),
+    {
+        assert forall|c: int| #[trigger] covers(r2, c) <==> r0 <= c < rg.end && target(o, range, c) by {
+            assert(covers(r2, c) <==> covers(r, c) || inr(rg, c));
+            assert(covers(r, c) <==> r0 <= c < f && target(o, range, c));
+            if f <= c < rg.start {
+                assert(!target(o, range, c));
+            }
+        }
+        assert forall|c: int| #[trigger] covers(r2, c) implies tv_ok(o, range, value, c, val_at(r2, c)) by {
+            assert(covers(r2, c) <==> covers(r, c) || inr(rg, c));
+            if covers(r, c) {
+                assert(val_at(r2, c) == val_at(r, c));
+            } else {
+                assert(inr(rg, c));
+                let w = val_at(r2, c);
+                let k = idx_of(r2, c);
+                assert(inr(r2[k].0, c));
+                assert(r2[k].1.wf());
+                assert(w.eq_spec(&v));
+                assert(tv_ok(o, range, value, c, v));
+                if covers(o, c) {
+                    let j = idx_of(o, c);
+                    assert(inr(o[j].0, c));
+                    assert(o[j].1.wf());
+                    if inr(range, c) {
+                        w.law_eq_trans(&v, &val_at(o, c).merge_spec(&value));
+                    } else {
+                        w.law_eq_trans(&v, &val_at(o, c));
+                    }
+                } else {
+                    w.law_eq_trans(&v, &value);
+                }
+            }
+        }
+    }
+
+    /// entries of the window other than the first start inside `range`
+    pub proof fn lemma_win_facts<T: Merge>(o: Seq<Ent<T>>, lo: int, hi: int, range: Range<u32>, i: int)
+        requires
+            win(o, lo, hi, range),
+            lo <= i < hi,
+        ensures
+            range.start <= o[i].0.end,
+            o[i].0.start <= range.end,
+            o[i].0.start < o[i].0.end,
+            o[i].1.wf(),
+            win_lo(o, lo, range) <= o[i].0.start,
+            i > lo ==> range.start <= o[i - 1].0.end <= o[i].0.start,
+            i > 0 ==> o[i - 1].0.end <= o[i].0.start,
+    {
+        if i > lo {
+            assert(range.start <= o[i - 1].0.end);
+            assert(o[lo].0.end <= o[i].0.start);
+            assert(o[lo].0.start < o[lo].0.end);
+        }
+        if i > 0 {
+            assert(o[i - 1].0.end <= o[i].0.start);
+        }
+    }
+
+    /// step 1 of iteration `i`: the gap in front of entry `i`
+    pub proof fn lemma_step_gap<T: Merge>(o: Seq<Ent<T>>, lo: int, hi: int, range: Range<u32>, value: T, i: int, cursor: u32, g0: Seq<Ent<T>>, g1: Seq<Ent<T>>)
+        requires
+            win(o, lo, hi, range),
+            value.wf(),
+            lo <= i < hi,
+            cursor == (if i == lo { win_lo(o, lo, range) } else { o[i - 1].0.end as int }),
+            finv(o, range, value, win_lo(o, lo, range), g0, cursor as int),
+            if cursor >= range.start && cursor < o[i].0.start {
+                pushed(g0, g1, cursor..umin(o[i].0.start, range.end), value)
+            } else {
+                g1 == g0
+            },
+        ensures
+            finv(o, range, value, win_lo(o, lo, range), g1, o[i].0.start as int),
+    {
+        lemma_win_facts(o, lo, hi, range, i);
+        let e = o[i];
+        if cursor >= range.start && cursor < e.0.start {
+            let rg = cursor..umin(e.0.start, range.end);
+            assert(rg.end == e.0.start);
+            assert forall|c: int| #[trigger] inr(rg, c) implies target(o, range, c) && tv_ok(o, range, value, c, value) by {
+                lemma_gap(o, i, c);
+                value.law_eq_refl();
+            }
+            lemma_advance(o, range, value, win_lo(o, lo, range), g0, cursor as int, g1, rg, value);
+        } else {
+            assert(cursor == e.0.start);
+        }
+    }
+
+    /// step 2: the part of entry `i` in front of `range`
+    pub proof fn lemma_step_prefix<T: Merge>(o: Seq<Ent<T>>, lo: int, hi: int, range: Range<u32>, value: T, i: int, g1: Seq<Ent<T>>, g2: Seq<Ent<T>>)
+        requires
+            win(o, lo, hi, range),
+            value.wf(),
+            lo <= i < hi,
+            finv(o, range, value, win_lo(o, lo, range), g1, o[i].0.start as int),
+            if o[i].0.start < range.start {
+                pushed(g1, g2, o[i].0.start..range.start, o[i].1)
+            } else {
+                g2 == g1
+            },
+        ensures
+            finv(o, range, value, win_lo(o, lo, range), g2, umax(o[i].0.start, range.start) as int),
+    {
+        lemma_win_facts(o, lo, hi, range, i);
+        let e = o[i];
+        if e.0.start < range.start {
+            let rg = e.0.start..range.start;
+            assert forall|c: int| #[trigger] inr(rg, c) implies target(o, range, c) && tv_ok(o, range, value, c, e.1) by {
+                assert(inr(o[i].0, c));
+                lemma_idx_unique(o, i, c);
+                e.1.law_eq_refl();
+            }
+            lemma_advance(o, range, value, win_lo(o, lo, range), g1, e.0.start as int, g2, rg, e.1);
+        }
+    }
+
+    /// step 3: the part of entry `i` inside `range`
+    pub proof fn lemma_step_overlap<T: Merge>(o: Seq<Ent<T>>, lo: int, hi: int, range: Range<u32>, value: T, i: int, g2: Seq<Ent<T>>, g3: Seq<Ent<T>>)
+        requires
+            win(o, lo, hi, range),
+            value.wf(),
+            lo <= i < hi,
+            finv(o, range, value, win_lo(o, lo, range), g2, umax(o[i].0.start, range.start) as int),
+            if umax(o[i].0.start, range.start) < umin(o[i].0.end, range.end) {
+                o[i].1.merge_spec(&value).wf() && pushed(g2, g3, umax(o[i].0.start, range.start)..umin(o[i].0.end, range.end), o[i].1.merge_spec(&value))
+            } else {
+                g3 == g2
+            },
+        ensures
+            finv(o, range, value, win_lo(o, lo, range), g3, umax(umax(o[i].0.start, range.start), umin(o[i].0.end, range.end)) as int),
+    {
+        lemma_win_facts(o, lo, hi, range, i);
+        let e = o[i];
+        let os = umax(e.0.start, range.start);
+        let oe = umin(e.0.end, range.end);
+        if os < oe {
+            let rg = os..oe;
+            let m = e.1.merge_spec(&value);
+            assert forall|c: int| #[trigger] inr(rg, c) implies target(o, range, c) && tv_ok(o, range, value, c, m) by {
+                assert(inr(o[i].0, c));
+                lemma_idx_unique(o, i, c);
+                m.law_eq_refl();
+            }
+            lemma_advance(o, range, value, win_lo(o, lo, range), g2, os as int, g3, rg, m);
+        }
+    }
+
+    /// step 4: the part of entry `i` behind `range`
+    pub proof fn lemma_step_suffix<T: Merge>(o: Seq<Ent<T>>, lo: int, hi: int, range: Range<u32>, value: T, i: int, g3: Seq<Ent<T>>, g4: Seq<Ent<T>>)
+        requires
+            win(o, lo, hi, range),
+            value.wf(),
+            lo <= i < hi,
+            finv(o, range, value, win_lo(o, lo, range), g3, umax(umax(o[i].0.start, range.start), umin(o[i].0.end, range.end)) as int),
+            if o[i].0.end > range.end {
+                pushed(g3, g4, range.end..o[i].0.end, o[i].1)
+            } else {
+                g4 == g3
+            },
+        ensures
+            finv(o, range, value, win_lo(o, lo, range), g4, o[i].0.end as int),
+    {
+        lemma_win_facts(o, lo, hi, range, i);
+        let e = o[i];
+        if e.0.end > range.end {
+            let rg = range.end..e.0.end;
+            assert forall|c: int| #[trigger] inr(rg, c) implies target(o, range, c) && tv_ok(o, range, value, c, e.1) by {
+                assert(inr(o[i].0, c));
+                lemma_idx_unique(o, i, c);
+                e.1.law_eq_refl();
+            }
+            lemma_advance(o, range, value, win_lo(o, lo, range), g3, range.end as int, g4, rg, e.1);
+        }
+    }
+
+    /// step 5 (after the loop): the rest of `range` behind the last entry of the window
+    pub proof fn lemma_step_tail<T: Merge>(o: Seq<Ent<T>>, lo: int, hi: int, range: Range<u32>, value: T, g0: Seq<Ent<T>>, g1: Seq<Ent<T>>)
+        requires
+            win(o, lo, hi, range),
+            value.wf(),
+            finv(o, range, value, win_lo(o, lo, range), g0, o[hi - 1].0.end as int),
+            if o[hi - 1].0.end < range.end {
+                pushed(g0, g1, o[hi - 1].0.end..range.end, value)
+            } else {
+                g1 == g0
+            },
+        ensures
+            finv(o, range, value, win_lo(o, lo, range), g1, win_hi(o, hi, range)),
+    {
+        lemma_win_facts(o, lo, hi, range, hi - 1);
+        let cursor = o[hi - 1].0.end;
+        if cursor < range.end {
+            let rg = cursor..range.end;
+            assert forall|c: int| #[trigger] inr(rg, c) implies target(o, range, c) && tv_ok(o, range, value, c, value) by {
+                lemma_gap(o, hi, c);
+                value.law_eq_refl();
+            }
+            lemma_advance(o, range, value, win_lo(o, lo, range), g0, cursor as int, g1, rg, value);
+        }
+    }
+
+    // ------------------------------------------------------------------------------------------
+    // general path, part 2: splicing the finished replacement into the old sequence
+    // ------------------------------------------------------------------------------------------
+    pub proof fn lemma_ins_general<T: Merge>(o: Seq<Ent<T>>, lo: int, hi: int, range: Range<u32>, value: T, r: Seq<Ent<T>>, res: Seq<Ent<T>>)
+        requires
+            win(o, lo, hi, range),
+            value.wf(),
+            finv(o, range, value, win_lo(o, lo, range), r, win_hi(o, hi, range)),
+            res =~= splice(o, lo, hi, r),
+        ensures
+            ins_post(o, range, value, res),
+            r.len() > 0,
+    {
+        let wa = win_lo(o, lo, range);
+        let wb = win_hi(o, hi, range);
+        lemma_win_facts(o, lo, hi, range, lo);
+        lemma_win_facts(o, lo, hi, range, hi - 1);
+        // r is not empty: it covers range.start
+        let c0 = range.start as int;
+        assert(inr(range, c0));
+        assert(target(o, range, c0));
+        assert(covers(r, c0));
+        assert(r.len() > 0) by {
+            let k = idx_of(r, c0);
+            assert(inr(r[k].0, c0));
+        }
+        let n = r.len() - 1;
+        // left seam
+        if lo > 0 && o[lo - 1].0.end == r[0].0.start {
+            let c = r[0].0.start as int;
+            assert(inr(r[0].0, c));
+            lemma_idx_unique(r, 0, c);
+            assert(wa <= c);
+            assert(o[lo - 1].0.end <= o[lo].0.start);
+            assert(c == o[lo].0.start && c < range.start);
+            assert(inr(o[lo].0, c));
+            lemma_idx_unique(o, lo, c);
+            assert(tv_ok(o, range, value, c, val_at(r, c)));
+            assert(r[0].1.eq_spec(&o[lo].1));
+            if o[lo - 1].1.eq_spec(&r[0].1) {
+                o[lo - 1].1.law_eq_trans(&r[0].1, &o[lo].1);
+                assert(false);
+            }
+        }
+        // right seam
+        if hi < o.len() && r[n].0.end == o[hi].0.start {
+            let c = r[n].0.end as int - 1;
+            assert(inr(r[n].0, c));
+            lemma_idx_unique(r, n, c);
+            assert(c < wb);
+            assert(o[hi - 1].0.end <= o[hi].0.start);
+            assert(c + 1 == o[hi - 1].0.end && c >= range.end);
+            assert(inr(o[hi - 1].0, c));
+            lemma_idx_unique(o, hi - 1, c);
+            assert(tv_ok(o, range, value, c, val_at(r, c)));
+            assert(r[n].1.eq_spec(&o[hi - 1].1));
+            if r[n].1.eq_spec(&o[hi].1) {
+                r[n].1.law_eq_sym(&o[hi - 1].1);
+                o[hi - 1].1.law_eq_trans(&r[n].1, &o[hi].1);
+                assert(false);
+            }
+        }
+        if lo > 0 { assert(o[lo - 1].0.end <= o[lo].0.start); }
+        if hi < o.len() { assert(o[hi - 1].0.end <= o[hi].0.start); }
+        lemma_splice(o, lo, hi, r, wa, wb);
+        assert forall|c: int| covers(o, c) && !(wa <= c < wb) implies #[trigger] val_at(res, c).eq_spec(&val_at(o, c)) by {
+            let k = idx_of(o, c);
+            assert(inr(o[k].0, c));
+            o[k].1.law_eq_refl();
+        }
+        assert forall|c: int| covers(res, c) <==> covers(o, c) || inr(range, c) by {
+            assert(covers(r, c) <==> wa <= c < wb && target(o, range, c));
+        }
+        assert forall|c: int| covers(o, c) && !inr(range, c) implies #[trigger] val_at(res, c).eq_spec(&val_at(o, c)) by {
+            if wa <= c < wb {
+                assert(target(o, range, c));
+                assert(covers(r, c));
+                assert(tv_ok(o, range, value, c, val_at(r, c)));
+            }
+        }
+        assert forall|c: int| !covers(o, c) && inr(range, c) implies #[trigger] val_at(res, c).eq_spec(&value) by {
+            assert(target(o, range, c));
+            assert(covers(r, c));
+            assert(tv_ok(o, range, value, c, val_at(r, c)));
+        }
+        assert forall|c: int| covers(o, c) && inr(range, c) implies #[trigger] val_at(res, c).eq_spec(&val_at(o, c).merge_spec(&value)) by {
+            assert(target(o, range, c));
+            assert(covers(r, c));
+            assert(tv_ok(o, range, value, c, val_at(r, c)));
+        }
+    }
+
+    /// in a canonical sequence two neighbours that touch have different values: the seam-coalescing branches
+    /// of `insert_with` are unreachable
+    pub proof fn lemma_no_coalesce<T: Merge>(s: Seq<Ent<T>>, k: int)
+        requires
+            canon(s),
+            0 <= k,
+            k + 1 < s.len(),
+            s[k].0.end >= s[k + 1].0.start,
+        ensures
+            !s[k].1.eq_spec(&s[k + 1].1),
+    {
+        assert(s[k].0.end <= s[k + 1].0.start);
+    }
+
     impl<T: Merge> IdRanges<T> {
         /*@extract yrs/src/ids.rs | impl<T: Merge> IdRanges<T> | fn insert_with
         @sig
@@ -297,8 +786,138 @@ pub mod vx_ids {
                 forall|c: int| covers(old(self)@, c) && !inr(range, c) ==> #[trigger] val_at(final(self)@, c).eq_spec(&val_at(old(self)@, c)),
                 forall|c: int| !covers(old(self)@, c) && inr(range, c) ==> #[trigger] val_at(final(self)@, c).eq_spec(&value),
                 forall|c: int| covers(old(self)@, c) && inr(range, c) ==> #[trigger] val_at(final(self)@, c).eq_spec(&val_at(old(self)@, c).merge_spec(&value)),
-                @loop 1
+        @start
+            let ghost o = self.0@;
+            proof { T::law_obeys_eq(); }
+        @before 1 `stmt:return`
+            proof { lemma_ins_noop(o, range, value); }
+        @before 2 `stmt:return`
+            proof {
+                assert(self.0@ =~= o.insert(o.len() as int, (range, value)));
+                lemma_ins_single(o, o.len() as int, range, value, self.0@);
+            }
+        @before 3 `stmt:return`
+            proof {
+                let n = o.len() - 1;
+                assert(self.0@ =~= o.update(n, (o[n].0.start..umax(o[n].0.end, range.end), o[n].1)));
+                lemma_ins_extend(o, range, value, self.0@);
+            }
+        @before 4 `stmt:return`
+            proof {
+                assert(self.0@ =~= o.insert(o.len() as int, (range, value)));
+                lemma_ins_single(o, o.len() as int, range, value, self.0@);
+            }
+        @before 1 `stmt:let lo`
+            proof { assert(self.0@ == o); }
+        @after 1 `stmt:let lo`
+            let ghost lo0 = lo;
+        @before 1 `stmt:let hi`
+            proof {
+                if lo < lo0 {
+                    assert(o[lo as int].0.start < range.start);
+                    if lo > 0 { assert(o[lo - 1].0.end <= o[lo as int].0.start); }
+                }
+                assert(lo > 0 ==> o[lo - 1].0.end < range.start);
+                assert(lo < o.len() ==> o[lo as int].0.end >= range.start) by {
+                    if lo < o.len() && lo == lo0 { assert(o[lo as int].0.start >= range.start); }
+                }
+                assert forall|k: int| lo < k < o.len() implies (#[trigger] o[k]).0.start >= range.start by {}
+            }
+        @loop 1
+            invariant
+                self.0@ == o,
+                lo <= hi <= o.len(),
+                forall|k: int| lo <= k < hi ==> (#[trigger] o[k]).0.start <= range.end,
             decreases self.0.len() - hi,
+        @after 1 `stmt:while`
+            proof {
+                if lo < hi {
+                    assert forall|k: int| lo <= k < hi implies range.start <= (#[trigger] o[k]).0.end && o[k].0.start <= range.end by {
+                        if k > lo { assert(o[k].0.start >= range.start); }
+                    }
+                    assert(win(o, lo as int, hi as int, range));
+                }
+            }
+        @after 1 `stmt:call insert`
+            proof { lemma_ins_single(o, lo as int, range, value, self.0@); }
+        @before 1 `stmt:assign end`
+            proof { lemma_no_coalesce(self.0@, lo as int); assert(false); }
+        @before 2 `stmt:assign end`
+            proof { lemma_no_coalesce(self.0@, lo - 1); assert(false); }
+        @loop 2
+            invariant
+                self.0@ == o,
+                win(o, lo as int, hi as int, range),
+                value.wf(),
+                new_start == range.start,
+                new_end == range.end,
+                lo <= i <= hi,
+                cursor == (if i == lo { win_lo(o, lo as int, range) } else { o[i - 1].0.end as int }),
+                finv(o, range, value, win_lo(o, lo as int, range), replacement@, cursor as int),
+        @after 1 `stmt:let entry_range`
+            let ghost g0 = replacement@;
+            proof {
+                assert(*entry_range == o[i as int].0 && *entry_value == o[i as int].1);
+                lemma_win_facts(o, lo as int, hi as int, range, i as int);
+            }
+        @after 1 `stmt:call push_coalesced`
+            proof { assert(pushed(g0, replacement@, cursor..umin(entry_range.start, new_end), value)); }
+        @after 11 `stmt:if`
+            let ghost g1 = replacement@;
+            proof { lemma_step_gap(o, lo as int, hi as int, range, value, i as int, cursor, g0, g1); }
+        @after 2 `stmt:call push_coalesced`
+            proof { assert(pushed(g1, replacement@, entry_range.start..new_start, *entry_value)); }
+        @before 1 `stmt:let overlap_start`
+            let ghost g2 = replacement@;
+            proof { lemma_step_prefix(o, lo as int, hi as int, range, value, i as int, g1, g2); }
+        @after 3 `stmt:call push_coalesced`
+            proof {
+                assert(merged == o[i as int].1.merge_spec(&value) && merged.wf());
+                assert(pushed(g2, replacement@, overlap_start..overlap_end, o[i as int].1.merge_spec(&value)));
+            }
+        @after 13 `stmt:if`
+            let ghost g3 = replacement@;
+            proof {
+                assert(overlap_start == umax(o[i as int].0.start, range.start));
+                assert(overlap_end == umin(o[i as int].0.end, range.end));
+                lemma_step_overlap(o, lo as int, hi as int, range, value, i as int, g2, g3);
+            }
+        @after 4 `stmt:call push_coalesced`
+            proof { assert(pushed(g3, replacement@, new_end..entry_range.end, *entry_value)); }
+        @before 1 `stmt:assign cursor`
+            let ghost g4 = replacement@;
+            proof { lemma_step_suffix(o, lo as int, hi as int, range, value, i as int, g3, g4); }
+        @after 1 `stmt:for`
+            let ghost h0 = replacement@;
+            proof { assert(cursor == o[hi - 1].0.end); }
+        @after 5 `stmt:call push_coalesced`
+            proof { assert(pushed(h0, replacement@, cursor..new_end, value)); }
+        @before 1 `stmt:let repl_len`
+            let ghost rp = replacement@;
+            proof { lemma_step_tail(o, lo as int, hi as int, range, value, h0, rp); }
+        @loop 3 iter=it
+            invariant
+                i == it.index@,
+                it.seq() == rp,
+                lo <= hi <= o.len(),
+                i <= rp.len(),
+                self.0.len() == lo + i + (o.len() - hi),
+                self.0@ == o.subrange(0, lo as int) + rp.subrange(0, i as int) + o.subrange(hi as int, o.len() as int),
+        @after 2 `stmt:call insert`
+            proof {
+                assert(self.0@ =~= o.subrange(0, lo as int) + rp.subrange(0, i + 1) + o.subrange(hi as int, o.len() as int));
+                assert(self.0.len() == lo + i + 1 + (o.len() - hi));
+            }
+        @before 1 `stmt:let splice_end`
+            proof {
+                assert(rp.subrange(0, i as int) =~= rp);
+                assert(self.0@ =~= splice(o, lo as int, hi as int, rp));
+                lemma_ins_general(o, lo as int, hi as int, range, value, rp, self.0@);
+            }
+        @before 3 `stmt:assign end`
+            proof { lemma_no_coalesce(self.0@, prev as int); assert(false); }
+        @before 4 `stmt:assign end`
+            proof { lemma_no_coalesce(self.0@, lo - 1); assert(false); }
         @*/
     }
 
